@@ -121,7 +121,7 @@ pub fn gen_main(args: &[String]) -> i32 {
 }
 
 /// builds /repo's command-line tool (from the current working tree) into /verif/work/cli-target
-fn build_cli() -> Result<PathBuf, String> {
+pub fn build_cli() -> Result<PathBuf, String> {
     let target = "/verif/work/cli-target";
     let out = Command::new("cargo").args(["build", "--offline", "--quiet", "-p", "conjure-rust", "--manifest-path", "/repo/Cargo.toml", "--target-dir", target]).env("CARGO_NET_OFFLINE", "true").output().map_err(|e| e.to_string())?;
     if !out.status.success() {
